@@ -1,4 +1,5 @@
 """C08  Sun/Earth positions agree across frames; obliquity and nutation are sane."""
+import z3
 import math
 from fractions import Fraction
 from pyvc.api import REGISTRY, PyRaise, sin_, cos_, radians_, pi_
@@ -125,20 +126,38 @@ def h_linear(ctx, fn):
     ctx.vc("det M > 0 (a rotation, not a reflection)", det > 0)
 
 
+def _sun_j2000_contract(it, f, a, k):
+    """Sun.rectangular_coordinates_j2000(epoch): three unknown functions of the epoch's JDE (so that a vector taken at another
+    epoch is another vector)"""
+    j = Num.of(a[0].fields["_jde"]).real()
+    return tuple(Num.real_expr(_SUN_UF[c](j)) for c in "xyz")
+
+
+_SUN_UF = {c: z3.Function("sun_j2000_" + c, z3.RealSort(), z3.RealSort()) for c in "xyz"}
+
+
 @P.harness("rectangular/equinox-matrix-orthogonal",
-           contracts=lambda: {SUN + ".rectangular_coordinates_j2000": (lambda it, f, a, k: tuple(Num.real_var(n) for n in ("x0", "y0", "z0"))),
+           contracts=lambda: {SUN + ".rectangular_coordinates_j2000": _sun_j2000_contract,
                               ANGLE + ".reduce_deg": contract_reduce_opaque, ANGLE + ".dms2deg": contract_dms2deg},
            functions=[SUN + ".rectangular_coordinates_equinox"], crosscheck=0)
 def h_equinox(ctx):
-    if ctx.native:
-        return
     e, j = epoch(ctx, "jde")
     q, jq = epoch(ctx, "jde_equinox")
     out = ctx.call(SUN + ".rectangular_coordinates_equinox", e, q)
-    x0, y0, z0 = (Num.real_var(n) for n in ("x0", "y0", "z0"))
-    ctx.identity("norm of the result == norm of the J2000 vector (rotation matrix built from zeta, z, theta)",
+    if ctx.native:
+        from pymeeus.Sun import Sun
+        x0, y0, z0 = Sun.rectangular_coordinates_j2000(e)
+        n0, n1 = math.sqrt(x0 * x0 + y0 * y0 + z0 * z0), math.sqrt(sum(c * c for c in out))
+        ctx.vc("norm of the result == norm of the J2000 vector of the same epoch (1e-9 AU)", abs(n0 - n1) < 1e-9)
+        return
+    x0, y0, z0 = (Num.real_expr(_SUN_UF[c](Num.of(j).real())) for c in "xyz")
+    ctx.identity("norm of the result == norm of the J2000 vector of the same epoch (rotation matrix built from zeta, z, theta)",
                  out[0] * out[0] + out[1] * out[1] + out[2] * out[2], x0 * x0 + y0 * y0 + z0 * z0)
-    zeta, z, theta = (a_[2] for a_ in ctx.it.info["dms2deg_args"][-3:])
+    dm = ctx.it.info.get("dms2deg_args", [])
+    if len(dm) < 3:
+        ctx.vc("a vector that is not rotated is the J2000 vector of the epoch asked for", and_(out[0] == x0, out[1] == y0, out[2] == z0))
+        return
+    zeta, z, theta = (a_[2] for a_ in dm[-3:])
     ctx.vc("equinox == J2000: zeta = z = theta = 0 (identity)", implies(jq == 2451545, and_(zeta == 0, z == 0, theta == 0)))
 
 
@@ -268,3 +287,6 @@ def b_frames(rng, tier):
             if abs(d) > 0.02 or abs(rr - gr) > 2e-4 or abs(d2) > 0.02:
                 ok, det = False, ("coarse", d, rr - gr, d2)
         yield ((round(jd, 3), "series"), ok, det)
+
+
+P.frame_check()
